@@ -133,6 +133,23 @@ fn main() {
         Some("session") => session::child_main(),
         Some("drive") => cmd_drive(&args[1..]),
         Some("replay") => cmd_replay(&args[1..]),
+        Some("emit-keys") => {
+            // key table for the real-rustc and Miri layers: families (seeded), faults, harvested
+            let seed: u64 = arg(&args, "--seed").map(|s| s.parse().unwrap()).unwrap_or(1);
+            let per_family: usize = arg(&args, "--per-family").map(|s| s.parse().unwrap()).unwrap_or(4);
+            let (c, _) = corpus(arg(&args, "--repo").unwrap_or("/repo"));
+            let mut r = rng::Rng::new(seed, 0xA3);
+            let mut fam = Vec::new();
+            for f in 0..workload::N_FAMILIES {
+                for _ in 0..per_family {
+                    let k = workload::family(&mut r, f);
+                    fam.push(json!({"family": workload::FAMILY_NAMES[f], "derive": k.derive, "item": k.item}));
+                }
+            }
+            let v = json!({"families": fam, "faults": c.faults, "harvested": c.base});
+            println!("{}", serde_json::to_string(&v).unwrap());
+            0
+        }
         Some("harvest") => {
             let (c, info) = corpus(arg(&args, "--repo").unwrap_or("/repo"));
             println!("{}", serde_json::to_string_pretty(&info).unwrap());
